@@ -330,7 +330,7 @@ Proof.
   rewrite Hoe, Hce, Hoi, Hol, Hrcok.
   rewrite (yield_unfold _ _ _ _ _ _ _ _ _ _ Htab).
   exists st', nxt, encs, prev. split; [|split; [|split]].
-  - unfold expected_record_of, expected_record. cbn [call_prepared c]. rewrite <- Eind, Hprep. cbn [fst snd].
+  - unfold expected_record_of, expected_record. cbn [call_prepared c]. Show. rewrite <- Eind, Hprep. cbn [fst snd].
     cbn [call_dots call_opts call_payload call_name]. rewrite <- Eind, Htarget, Hres. reflexivity.
   - apply Hsim'. rewrite Hfnl'. reflexivity.
   - exact Hrem'.
